@@ -156,3 +156,21 @@ pub fn validate_and_init<'info>(
     )?;
     Ok(params)
 }
+
+/// Run the real `find_first_market` / `find_last_market` (which market account an action's swap input is
+/// recorded into / its swap output is paid out of) and return the selected account's address.
+pub fn find_end_market<'info>(
+    params: &SwapActionParams,
+    store: &Pubkey,
+    is_primary: bool,
+    first: bool,
+    remaining_accounts: &'info [AccountInfo<'info>],
+) -> Result<Option<Pubkey>> {
+    use crate::states::common::swap::SwapActionParamsExt;
+    let found = if first {
+        params.find_first_market(store, is_primary, remaining_accounts)?
+    } else {
+        params.find_last_market(store, is_primary, remaining_accounts)?
+    };
+    Ok(found.map(|info| *info.key))
+}
